@@ -1488,7 +1488,10 @@ def _image_to_ground_hae_perform(
         # check our hae value versus hae0
         gpp_llh = ecf_to_geodetic(gpp)
         delta_hae = gpp_llh[:, 2] - hae0
-        max_abs_delta_hae = numpy.max(numpy.abs(delta_hae))
+        # NB: a point which can not be projected (nan) must not end the iteration for the other points
+        abs_delta_hae = numpy.abs(delta_hae)
+        finite_delta = numpy.isfinite(abs_delta_hae)
+        max_abs_delta_hae = numpy.max(abs_delta_hae[finite_delta]) if numpy.any(finite_delta) else 0.0
         gref = gpp - (delta_hae[:, numpy.newaxis] * ugpn)
         # should we stop our iteration?
         cont = (max_abs_delta_hae > tolerance) and (iters < max_iterations)
